@@ -2,6 +2,7 @@ import SecsModel.Proofs.SfdlTok
 import SecsModel.Proofs.SfdlParse
 import SecsModel.Proofs.SfdlShape
 import SecsModel.Proofs.SfdlReject
+import SecsModel.Proofs.SfdlKeys
 /-!
 # C19 — function structure definitions (SFDL) are read exactly as documented
 
